@@ -381,7 +381,8 @@ extern "C" int vf_main(int argc,char**argv,void(*scenario)(void)){
 // ================================================================== in-process explorer (single-threaded harnesses)
 // scenario(case) is re-executed in this process for every choice prefix (DFS, deviation bound); cases are sharded over
 // forked workers.  vf_choose is the only source of nondeterminism; vf_fail ends the worker (the state may be corrupt).
-struct IPShared { long execs, points, cases; long viol; long distinct; char msg[512]; long vcase; int vlen; unsigned char vprefix[MAXP]; char voutcome[2048]; char sample[4][1024]; int nsample; unsigned long ohash[1<<16]; };
+struct vf_known_abort {};
+struct IPShared { long execs, points, cases; long viol; long distinct; long known; long timedout; long cases_done; char msg[512]; long vcase; int vlen; unsigned char vprefix[MAXP]; char voutcome[2048]; char sample[4][1024]; int nsample; unsigned long ohash[1<<16]; };
 static IPShared* IP; static int ip_worker=-1; static long ip_case=0; static Result ipres; static unsigned char ipprefix[MAXP];
 static std::set<uint64_t>* ip_out;
 extern "C" int vf_main_cases(int argc,char**argv,long ncases,void(*scenario)(long)){
@@ -394,31 +395,32 @@ extern "C" int vf_main_cases(int argc,char**argv,long ncases,void(*scenario)(lon
         struct PN{ std::vector<unsigned char> p; int cost; }; std::vector<PN> stack; PN r0; r0.cost=0;
         if(!O.replay.empty()){ const char*s=O.replay.c_str(); while(*s){ int pp=strtol(s,(char**)&s,10); if(*s==':'){ s++; int a=strtol(s,(char**)&s,10); if((int)r0.p.size()<pp+1) r0.p.resize(pp+1,0); r0.p[pp]=(unsigned char)a; } while(*s==','||*s==' ') s++; if(*s && !(*s>='0'&&*s<='9')) break; } }
         stack.push_back(r0);
-        while(!stack.empty()){ PN n=std::move(stack.back()); stack.pop_back(); nprefix=(int)n.p.size(); memcpy(ipprefix,n.p.data(),nprefix); ipoint=0; mycost=0; steps=0; stampctr=0; ipres.outcome[0]=0; ipres.conflict=0; vf_rt_reset();
+        while(!stack.empty()){ if((IP->execs&1023)==0 && now_s()-t0>O.deadline){ IP->timedout=1; break; } PN n=std::move(stack.back()); stack.pop_back(); nprefix=(int)n.p.size(); memcpy(ipprefix,n.p.data(),nprefix); ipoint=0; mycost=0; steps=0; stampctr=0; ipres.outcome[0]=0; ipres.conflict=0; vf_rt_reset();
           IP->vcase=c; IP->vlen=nprefix; memcpy(IP->vprefix,ipprefix,nprefix);
-          scenario(c);
+          try { scenario(c); } catch(vf_known_abort&) {}
           IP->execs++; IP->points+=ipoint; uint64_t oh=mix(0x77,c); for(char*q=ipres.outcome;*q;q++) oh=mix(oh,(unsigned char)*q); if(outs.insert(oh).second){ IP->distinct++; if(IP->nsample<4 && (IP->execs%7==1||IP->nsample==0)){ snprintf(IP->sample[IP->nsample++],1024,"case %ld schedule-len %d: %s",c,ipoint,ipres.outcome);} }
           if(verbose) printf("case %ld cost=%d points=%d outcome=[%s]\n",c,mycost,ipoint,ipres.outcome);
           if(O.replay.empty()) for(int k=nprefix;k<ipoint;k++){ if(n.cost+1>O.bound) break; for(int alt=1;alt<ipres.nen[k];alt++){ PN nn; nn.p.assign(ipprefix,ipprefix+k); for(int z=nprefix;z<k;z++) nn.p[z]=0; nn.p.push_back((unsigned char)alt); nn.cost=n.cost+1; stack.push_back(std::move(nn)); } }
         }
-        if(only_case>=0) break; }
+        if(IP->timedout) break; IP->cases_done++; if(only_case>=0) break; }
       _exit(0);} pids.push_back(p); }
   bool crashed=false; int crashj=-1; for(int j=0;j<jobs;j++){ int st; waitpid(pids[j],&st,0); if(WIFSIGNALED(st)){ crashed=true; crashj=j; if(!sh[j].viol){ sh[j].viol=1; snprintf(sh[j].msg,512,"crash: signal %d (%s)",WTERMSIG(st),strsignal(WTERMSIG(st))); } } else if(WIFEXITED(st)&&WEXITSTATUS(st)==3){} else if(WIFEXITED(st)&&WEXITSTATUS(st)!=0){ if(!sh[j].viol){ sh[j].viol=1; snprintf(sh[j].msg,512,"crash: worker exited with status %d",WEXITSTATUS(st)); } } }
   (void)crashed;(void)crashj;
-  long execs=0,points=0,cases=0,viol=0,distinct=0; int vj=-1; for(int j=0;j<jobs;j++){ execs+=sh[j].execs; points+=sh[j].points; cases+=sh[j].cases; distinct+=sh[j].distinct; if(sh[j].viol){ viol++; if(vj<0) vj=j; } }
+  long execs=0,points=0,cases=0,viol=0,distinct=0,knownn=0,timedout=0,cases_done=0; int vj=-1; for(int j=0;j<jobs;j++){ knownn+=sh[j].known; timedout+=sh[j].timedout; cases_done+=sh[j].cases_done; execs+=sh[j].execs; points+=sh[j].points; cases+=sh[j].cases; distinct+=sh[j].distinct; if(sh[j].viol){ viol++; if(vj<0) vj=j; } }
   double wall=now_s()-t0; std::string replaypath;
-  printf("SUMMARY tag=%s mode=inproc bound=%d cases=%ld executions=%ld choice_points=%ld distinct_outcomes=%ld violations=%ld wall=%.2fs\n",O.tag.c_str(),O.bound,cases,execs,points,distinct,viol,wall);
+  printf("SUMMARY tag=%s mode=inproc bound=%d deadline_hit=%ld cases_done=%ld cases=%ld executions=%ld choice_points=%ld distinct_outcomes=%ld violations=%ld wall=%.2fs\n",O.tag.c_str(),O.bound,timedout,cases_done,cases,execs,points,distinct,viol,wall);
   std::string vsched_s;
   if(vj>=0){ IPShared&v=sh[vj]; for(int i=0;i<v.vlen;i++) if(v.vprefix[i]){ if(!vsched_s.empty()) vsched_s+=","; vsched_s+=std::to_string(i)+":"+std::to_string(v.vprefix[i]); }
     printf("FOUND violation: %s  case=%ld schedule=[%s]\n",v.msg,v.vcase,vsched_s.c_str());
     if(!replaying){ std::string cmd="mkdir -p "+O.replaydir; if(system(cmd.c_str())){} replaypath=O.replaydir+"/"+O.tag+".vfr"; FILE*f=fopen(replaypath.c_str(),"w"); if(f){ fprintf(f,"# vsched replay file (in-process harness)\nbinary=%s\nargs=",argv[0]); for(int a=1;a<argc;a++){ std::string s=argv[a]; if(s=="-json"||s=="-deadline"||s=="-b"||s=="-j"||s=="-tag"||s=="-replaydir"||s=="-n"||s=="-known"){ a++; continue;} fprintf(f,"'%s' ",argv[a]); } fprintf(f,"-p case=%ld \nschedule=%s\nstatus=violation\nmessage=%s\n",v.vcase,vsched_s.empty()?"0:0":vsched_s.c_str(),v.msg); fclose(f);} } }
-  if(!O.json.empty()){ FILE*f=fopen(O.json.c_str(),"w"); if(f){ fprintf(f,"{\"tag\":\"%s\",\"mode\":\"inproc\",\"bound\":%d,\"completed_bound\":%d,\"exhaustive\":%s,\"executions\":%ld,\"pruned\":0,\"violations\":%ld,\"known\":0,\"horizon_unresolved\":0,\"slow_executions\":0,\"distinct_outcomes\":%ld,\"distinct_conflict_outcomes\":%ld,\"conflict_executions\":%ld,\"states\":%ld,\"transitions\":%ld,\"choice_points\":%ld,\"cases\":%ld,\"wall_s\":%.3f,\"fp_pruning\":false,\"engine_error\":false,\"engine_msg\":\"\",\"replay\":\"%s\",",
-      O.tag.c_str(),O.bound,viol?-1:O.bound,viol?"false":"true",execs,viol,distinct,distinct,execs,points+cases,points+execs,points,cases,wall,jesc(replaypath).c_str());
-      fprintf(f,"\"violation_msgs\":["); if(vj>=0) fprintf(f,"\"violation: %s (case %ld)\"",jesc(sh[vj].msg).c_str(),sh[vj].vcase); fprintf(f,"],\"known_msgs\":{},\"outcomes\":[],\"samples\":["); int ns=0; for(int j=0;j<jobs&&ns<4;j++) for(int i=0;i<sh[j].nsample&&ns<4;i++) fprintf(f,"%s\"%s\"",ns++?",":"",jesc(sh[j].sample[i]).c_str()); fprintf(f,"]}\n"); fclose(f);} }
+  if(!O.json.empty()){ FILE*f=fopen(O.json.c_str(),"w"); if(f){ fprintf(f,"{\"tag\":\"%s\",\"mode\":\"inproc\",\"bound\":%d,\"completed_bound\":%d,\"exhaustive\":%s,\"executions\":%ld,\"pruned\":0,\"violations\":%ld,\"known\":%ld,\"horizon_unresolved\":0,\"slow_executions\":0,\"distinct_outcomes\":%ld,\"distinct_conflict_outcomes\":%ld,\"conflict_executions\":%ld,\"states\":%ld,\"transitions\":%ld,\"choice_points\":%ld,\"cases\":%ld,\"cases_completed\":%ld,\"wall_s\":%.3f,\"fp_pruning\":false,\"engine_error\":false,\"engine_msg\":\"\",\"replay\":\"%s\",",
+      O.tag.c_str(),O.bound,(viol||timedout)?-1:O.bound,(viol||timedout)?"false":"true",execs,viol,knownn,distinct,distinct,execs,points+cases,points+execs,points,cases,cases_done,wall,jesc(replaypath).c_str());
+      fprintf(f,"\"violation_msgs\":["); if(vj>=0) fprintf(f,"\"violation: %s (case %ld)\"",jesc(sh[vj].msg).c_str(),sh[vj].vcase); fprintf(f,"],\"known_msgs\":{"); if(knownn&&!O.known.empty()) fprintf(f,"\"%s\":%ld",jesc(O.known[0]).c_str(),knownn); fprintf(f,"},\"outcomes\":[],\"samples\":["); int ns=0; for(int j=0;j<jobs&&ns<4;j++) for(int i=0;i<sh[j].nsample&&ns<4;i++) fprintf(f,"%s\"%s\"",ns++?",":"",jesc(sh[j].sample[i]).c_str()); fprintf(f,"]}\n"); fclose(f);} }
   return viol?1:0;
 }
 // in-process mode: vf_fail must stop the worker
-extern "C" void vf_ip_fail(const char*b){ IP->viol=1; strncpy(IP->msg,b,511); strncpy(IP->voutcome,ipres.outcome,2047); _exit(3); }
+extern "C" void vf_ip_fail(const char*b){ for(auto&k:O.known) if(strstr(b,k.c_str())){ IP->known++; throw vf_known_abort(); }   // a listed known finding: abandon this execution, keep exploring
+  IP->viol=1; strncpy(IP->msg,b,511); strncpy(IP->voutcome,ipres.outcome,2047); _exit(3); }
 
 // ================================================================== custom explicit-state searches (harness-owned BFS)
 extern "C" int vf_main_custom(int argc,char**argv,void(*search)(struct vf_custom_result*)){
